@@ -19,6 +19,18 @@ CHECKS = {
         technique="Lean 4 proof over Int kernels regenerated from source + differential correspondence",
         design="§4 C07",
     ),
+    "C08": dict(
+        text=("Proof (Lean 4), layer S — for an arbitrary element type and an arbitrary per-window function, hence bit-for-bit: the calibration "
+              "sample of a centre is exactly the set of steps within L//2 days (circularly, with the code's 366-wrap) of it; two runs whose inputs agree "
+              "on every step within L//2+S//2 days of the target day return the same value at the target step (RunningWindowDebiaser / ISIMIP loop and "
+              "DeltaChange). Tied to the code by the regenerated window kernels (tier A), by the skeleton correspondence through integer probes, and by "
+              "re-assembling the real apply_location result from the model's index sets with the real per-window functions (bitwise). The oracle perturbs "
+              "(x3, +1e6, NaN) everything outside the neighbourhood on the real debiasers and checks that a change at distance exactly L//2 matters."),
+        note=("Trusted: Lean kernel + standard axioms; translator; numpy fancy-index semantics; the loop body reads only inputs (modelled as compute-writes-then-apply). "
+              "Deterministic configurations only; ISIMIP's rsds step 1/8 (annual cycle over the whole series) is outside the quantifier."),
+        technique="Lean 4 proof over a polymorphic write-back skeleton + differential correspondence",
+        design="§4 C08",
+    ),
 }
 
 
